@@ -1,7 +1,7 @@
 """Check registry: property id -> function(tier) -> exit code."""
 import json
 
-from . import chk_buf, chk_contract, chk_pyops, chk_values
+from . import chk_buf, chk_contract, chk_pyops, chk_save, chk_values
 
 CHECKS = {
     "C03": chk_pyops.check_C03,
@@ -12,6 +12,7 @@ CHECKS = {
     "C06": chk_buf.check_C06,
     "C07": chk_buf.check_C07,
     "C15": chk_buf.check_C15,
+    "C08": chk_save.check_C08,
     "C11": chk_values.check_C11,
     "C12": chk_values.check_C12,
     "C16": chk_values.check_C16,
